@@ -26,6 +26,8 @@ EXTRA = {   # cross-property detectors worth running in addition to the defect's
     'C03-m1': ['C05'], 'C03-m2': ['C17', 'C05'], 'C03-m3': ['C01'], 'C03-m4': ['C05', 'C17'],
     'C06-m2': ['C05'], 'C10-m4': ['C07', 'C01'], 'C11-m3': ['C16'], 'C11-m4': ['C03'],
     'C13-m2': ['C05'], 'C13-m4': ['C06'], 'C17-m1': ['C05'],
+    'C02-m5': ['C14'], 'C02-m6': ['C14'], 'C04-m5': ['C17'], 'C04-m6': ['C08'], 'C05-m6': ['C15'], 'C12-m5': ['C06'], 'C12-m6': ['C05', 'C17'],
+    'C17-m5': ['C05', 'C06'], 'C17-m6': [],
 }
 res_path = os.path.join(SEEDED, 'RESULTS.json')
 results = json.load(open(res_path)) if os.path.exists(res_path) else {}
